@@ -207,7 +207,7 @@ impl<'a, T: Buf> Buf for &'a mut T {
 }
 
 impl VarInt {
-    // ASSUMED-FROM-UNIT: kani c16_decode_matches_spec  (VarInt::decode == vdec on every byte string, consuming exactly
+    // ASSUMED-FROM-UNIT: kani c16_decode_matches_spec kani c16_decode_any_chunking  (VarInt::decode == vdec on every byte string, consuming exactly
     // the encoding; same contract text as unit frames)
 //@extract h3/src/proto/varint.rs :: impl VarInt :: fn decode
 //@external_body
